@@ -423,7 +423,22 @@ pub fn run(ctx: &Ctx) -> (Report, String) {
                     let mut inst: Vec<(usize, Dec, usize)> = (0..per_thread)
                         .map(|_| {
                             let hid = rng.below(hists.len() as u64) as usize;
-                            (hid, Dec::new(hists[hid].sorenson, false), 0usize)
+                            // how the bytes reach the instance varies from replica to replica (all at once, a few per
+                            // read call, with `Interrupted` answers, with a transient error and a repeated call, or
+                            // late: the first bytes of each picture now, the rest after the call failed for lack of
+                            // data); the baseline was decoded from plain slices
+                            let mut d = Dec::new(hists[hid].sorenson, false);
+                            match rng.below(6) {
+                                0 => d.chunk = 1 + rng.below(7) as usize,
+                                1 => {
+                                    d.chunk = 1 + rng.below(3) as usize;
+                                    d.interrupt_every = 2 + rng.below(4) as usize;
+                                }
+                                2 => d.stall = Some((rng.below(1001) as usize, rng.below(3) as u8)),
+                                3 => d.trickle = Some(1 + rng.below(6) as usize),
+                                _ => {}
+                            }
+                            (hid, d, 0usize)
                         })
                         .collect();
                     let mut local: Vec<Event> = vec![];
